@@ -1,5 +1,6 @@
 import OrbitModel.Driver.Parse
 import OrbitModel.Model.Decode
+import OrbitModel.Driver.ReplReplay
 /-!
 # Driver world: replays a trace through the L0 model (correspondence) and evaluates the L1
 predicates on the implementation's own observations (specification).
@@ -54,6 +55,13 @@ structure World where
   /-- entries appended by writes that then FAILED (head not persisted): not acknowledged, so not owed
   to anybody after a restart, and not required to be covered by the cached heads -/
   unacked  : List Nat := []
+  /-- step-by-step replay of each store's replicator (`rev` lines): store key ↦ model state -/
+  repls    : List (Nat × Repl.St) := []
+  ctxIds   : List (String × Nat) := []    -- request context names ↦ numbers (`live` = 0)
+  inRev    : Bool := false                -- the previous line was a `rev` line of the same batch
+  /-- LoadEnds the store handled before the step that emitted them was recorded (its hook comes after
+  the emit, inside the same lock section): replayed right after that step -/
+  deferredDeliver : List (Nat × Nat) := []
   lineNo   : Nat := 0
   nFail    : Nat := 0
   nObs     : Nat := 0
@@ -203,6 +211,55 @@ def World.opHeads (w : World) : Option (List Entry) :=
   | "sync" => w.syncSrc.map (fun (q, _) => sortedHeads (w.store q).log)
   | "pubdeliver" | "exchange" => w.msgHeads.map (fun hs => w.entriesOf hs)
   | _ => none
+
+/-- what the replicator model needs to know about a hash: its links (`next ++ refs`), whether `Join`
+accepts it, whether it was written for another log -/
+def World.replNet (w : World) (h : Nat) : Repl.Info :=
+  match w.entry h with
+  | some e => { links := e.next ++ e.refs, valid := acceptable w.acl.canAppend e, foreign := e.logId != w.curDb + 1 }
+  | none => { links := [] }
+
+def World.replOf (w : World) (k : Nat) : Repl.St :=
+  match w.repls.find? (fun (x : Nat × Repl.St) => x.1 == k) with | some x => x.2 | none => { sem := 32 }
+
+def World.setRepl (w : World) (k : Nat) (s : Repl.St) : World :=
+  { w with repls := (k, s) :: w.repls.filter (fun (x : Nat × Repl.St) => x.1 != k) }
+
+def World.ctxId (w : World) (name : String) : World × Nat :=
+  if name == "live" then (w, 0) else
+  match w.ctxIds.find? (fun (x : String × Nat) => x.1 == name) with
+  | some x => (w, x.2)
+  | none => let n := w.ctxIds.length + 1; ({ w with ctxIds := (name, n) :: w.ctxIds }, n)
+
+/-- `rev p <step> …`: one step of p's replicator, replayed through `Model/Replicator.lean` -/
+def World.onRev (w : World) (toks : List String) : World :=
+  let p := peerNum (toks.getD 1 "")
+  let kind := toks.getD 2 ""
+  let k := w.key p
+  let (w, ctx) := match arg? toks "ctx" with | some c => w.ctxId c | none => (w, 0)
+  let r := w.replOf k
+  -- at the start of a batch of steps the model's view of the oplog catches up with the store model
+  -- (local writes and reloads change the oplog without the replicator)
+  let r := if w.inRev then r else
+    let held := (w.store p).log.entries.map (·.hash)
+    { r with log := r.log ++ held.filter (fun h => !r.log.contains h) }
+  let h := if kind == "load" || kind == "cancel" || kind == "deliver" then 0 else entryNum (toks.getD 3 "")
+  let heads := if kind == "load" then namesToNums (arg toks "heads") else []
+  let w := { w with inRev := true }
+  let dfr : Nat := match w.deferredDeliver.find? (fun (x : Nat × Nat) => x.1 == k) with | some x => x.2 | none => 0
+  let setDfr (w : World) (n : Nat) : World :=
+    { w with deferredDeliver := (k, n) :: w.deferredDeliver.filter (fun (x : Nat × Nat) => x.1 != k) }
+  if kind == "deliver" && r.pending.isEmpty then setDfr (w.setRepl k r) (dfr + 1) else
+  match revStep w.replNet r kind ctx h heads with
+  | .ok r' =>
+    -- deliveries recorded ahead of the step that emitted them
+    let rec catchUp (fuel : Nat) (r : Repl.St) (n : Nat) : Repl.St × Nat :=
+      match fuel with
+      | 0 => (r, n)
+      | f+1 => if n > 0 && !r.pending.isEmpty then catchUp f (Repl.step w.replNet r .deliver) (n - 1) else (r, n)
+    let (r'', n) := catchUp (dfr + 1) r' dfr
+    setDfr (w.setRepl k r'') n
+  | .bad r' msg => (w.setRepl k r').fail "corr" "rev" s!"peer {p}: {msg}"
 
 /-- `loadq p <heads>`: what `Sync` handed to the replicator, compared with the model of `Sync`
 (`syncHeads`: complete heads the access controller admits; nothing if a head's hash does not match) -/
@@ -528,6 +585,8 @@ def World.onRestarted (w : World) (toks : List String) : World :=
   let amount : Int := match w.pending.getD 2 "" with | "" => -1 | a => parseInt a
   let w := if arg toks "identity" != "true" then w.fail "C05" "identity" s!"peer {p} has a different identity after restart" else w
   let w := if w.nDb > 1 then w.reloadOtherDbs p else w
+  -- new instance, new replicators: nothing queued, nothing remembered
+  let w := { w with repls := w.repls.filter (fun (x : Nat × Repl.St) => x.1 % 1000 != p) }
   let s := (w.store p).reopened
   -- the whole persisted log: everything reachable from the cached heads
   let full := match s.load w.acl w.fetchAll (-1) with
@@ -551,7 +610,9 @@ def World.onRestarted (w : World) (toks : List String) : World :=
 def World.step (w : World) (line : String) : World :=
   let w := { w with lineNo := w.lineNo + 1 }
   let toks := fields line
+  let w := if toks.headD "" == "rev" then w else { w with inRev := false }
   match toks.headD "" with
+  | "rev" => w.onRev toks
   | "scn" =>
     let w' := World.onScn w toks
     { w' with lineNo := w.lineNo, out := w.out }
@@ -591,6 +652,14 @@ def World.step (w : World) (line : String) : World :=
     -- in progress (a slot that is never given back starves every later request once all are gone)
     if toks.getD 2 "" == "closed" then w else
     let n (k : String) : Nat := natOr (arg toks k) 0
+    -- correspondence: the model replayed step by step has the same bookkeeping
+    let p := peerNum (toks.getD 1 "")
+    let w := match w.deferredDeliver.find? (fun (x : Nat × Nat) => x.1 == w.key p) with
+      | some x => if x.2 > 0 then w.fail "corr" "rev" s!"peer {p}: the store handled {x.2} LoadEnd(s) the model never emitted" else w
+      | none => w
+    let w := (statsOf (w.replOf (w.key p))).foldl (fun w (kv : String × Nat) =>
+      if (arg? toks kv.1).isSome && n kv.1 != kv.2 then
+        w.fail "corr" "rev" s!"peer {p}: replicator bookkeeping `{kv.1}`: model {kv.2}, implementation {n kv.1}" else w) w
     let atRest := n "added" == 0 && n "fetching" == 0 && n "queue" == 0
     let w := if atRest && n "free" != n "of" then
         w.fail "C11" "slots" s!"peer {toks.getD 1 ""}: at rest only {n "free"} of {n "of"} fetch slots are free: aborted requests leak slots, and once none is left no request can fetch anything" else w
